@@ -161,7 +161,13 @@ def generate(rng, idx, tier, variant):
         if 'tracer' in mix and rng.random() < 0.5:
             ops[-1]['trace'] = True
     spec.pop('_allow_huge', None)
-    return {'spec': spec, 'pokes': pokes, 'ops': ops, 'np_err': np_err}
+    sched = {'spec': spec, 'pokes': pokes, 'ops': ops, 'np_err': np_err}
+    if rng.random() < 0.08 and spec['span']['n'] >= 3 and not dup and not npdup:
+        # earlier in the same program the class was used on ANOTHER span: a plain list with the same length and the same
+        # first and last labels but other labels in between (what the library may have learnt from that use - at class or
+        # module level - is not this object's business)
+        sched['prelude'] = rng.choice(['other-interior', 'other-interior', 'reversed-interior'])
+    return sched
 
 
 shrink_lists = ['ops', 'pokes']
@@ -237,6 +243,15 @@ def execute(schedule, ctx):
         parties[who] = m
     A, B, C, R = (parties[k] for k in 'ABCR')
     n = len(span)
+    if schedule.get('prelude') and n >= 3:
+        labs_ = list(spans.elements(span))
+        inner_ = list(reversed(labs_[1:-1])) if schedule['prelude'] == 'reversed-interior' and n >= 4 else [f'zz{j_}' for j_ in range(n - 2)]
+        try:
+            other_ = probes.new_scripted_instance(type(A), [labs_[0]] + inner_ + [labs_[-1]], {}, **S._dtype_kw(spec))
+            other_.solve(failures='ignore', errors='ignore')
+        except Exception:  # noqa: BLE001
+            pass
+        ctx.probe('prelude:class-used-earlier-on-another-span')
     lags, leads = spec['lags'], spec['leads']
     chk = lambda sig, ok, detail=None: ctx.check('C05', sig, ok, detail)  # noqa: E731
     for k, nfire in ((k, 1) for k in ()):
